@@ -82,8 +82,14 @@ def harness(c: sym.Ctx, case: Any) -> None:
             earlier = c.int("earlier")
             c.assume(earlier <= now)
             dtmodel.CLOCK = dtmodel.Clock(earlier)
+            # ... of the same schedule, or of another schedule with the same expression in another zone / in UTC
+            eoff = c.choose(["same", "other_zone", "utc"], "earlier_offset")
             off0: Any = None
-            if kind == "td":
+            if eoff == "other_zone":
+                off0 = "Z/Two"
+            elif eoff == "utc":
+                off0 = None
+            elif kind == "td":
                 off0 = TD(_us=td)
             elif kind == "zone":
                 off0 = "Z/One"
@@ -126,25 +132,23 @@ def harness(c: sym.Ctx, case: Any) -> None:
     earlier = None
     if dict(c.fixed_choices).get("second_evaluation_in_the_same_process"):
         earlier = int(c.assignment.get("earlier", int(now)))
-    _concrete(c, kind, int(now), int(td), zone, earlier, SHAPES[expr])
+    _concrete(c, kind, int(now), int(td), zone, earlier, SHAPES[expr], dict(c.fixed_choices).get("earlier_offset", "same"))
 
 
-def _concrete(c: sym.Ctx, kind: str, now: int, td: int, zone: str, earlier: Any = None, shape: str = "full") -> None:
+def _concrete(c: sym.Ctx, kind: str, now: int, td: int, zone: str, earlier: Any = None, shape: str = "full", eoff: Any = "same") -> None:
     """the real get_task_delay on a real ScheduledTask (so the model's own validators run), real pycron / pytz, frozen clock"""
     from taskiq.scheduler.scheduled_task import ScheduledTask
 
+    off_e: Any = None
     if earlier is not None:
-        off_e: Any = None
-        if kind == "td":
+        if eoff in ("other_zone", 1):
+            off_e = "Asia/Kolkata" if zone != "Asia/Kolkata" else "Europe/Berlin"
+        elif eoff in ("utc", 2):
+            off_e = None
+        elif kind == "td":
             off_e = real_dt.timedelta(microseconds=int(td))
         elif kind == "zone":
             off_e = zone
-        with _sched.real_run_module(min(earlier, now), fresh=True) as run0:
-            try:
-                run0.get_task_delay(ScheduledTask(task_name="t", labels={}, args=[], kwargs={}, cron="* * * * *", cron_offset=off_e))
-            except Exception as exc:  # noqa: BLE001
-                c.check(False, "unexpected_exception", exc=repr(exc))
-                return
     wall = _expected_wall(now, kind, int(td), zone)
     off = None
     if kind == "td":
@@ -157,6 +161,14 @@ def _concrete(c: sym.Ctx, kind: str, now: int, td: int, zone: str, earlier: Any 
         ("prev-minute", wall - real_dt.timedelta(minutes=1), False),
     ):
         task = ScheduledTask(task_name="t", labels={}, args=[], kwargs={}, cron=_exact_expr(w, shape), cron_offset=off)
+        if earlier is not None:
+            # the earlier evaluation: same expression, at the earlier instant, in a freshly executed module
+            with _sched.real_run_module(min(earlier, now), fresh=True) as run0:
+                try:
+                    run0.get_task_delay(ScheduledTask(task_name="t0", labels={}, args=[], kwargs={}, cron=task.cron, cron_offset=off_e))
+                except Exception as exc:  # noqa: BLE001
+                    c.check(False, "unexpected_exception", exc=repr(exc))
+                    return
         with _sched.real_run_module(now, fresh=earlier is None) as run:
             try:
                 r = run.get_task_delay(task)
